@@ -20,8 +20,14 @@ pub fn geoms(tier: Tier) -> Vec<(u32, u32)> {
 /// small geometries (weighted) with an occasional big one
 pub fn pick_geom(rng: &mut Rng, tier: Tier) -> (u32, u32) {
     let r = rng.below(100);
-    if r < 70 {
+    if r < 64 {
         *rng.pick(&G_QUICK)
+    } else if r < 67 {
+        // very wide and short / very tall and narrow: cheap (small area), yet beyond every size a
+        // special case might key on (132 columns, 24 lines, 100, 128, ...)
+        (rng.range(100, 170), rng.range(1, 3))
+    } else if r < 70 {
+        (rng.range(1, 4), rng.range(20, 48))
     } else if r < 85 {
         (rng.range(1, 12), rng.range(1, 8))
     } else if tier == Tier::Thorough || r < 93 {
@@ -68,6 +74,24 @@ pub const WIDE: [char; 4] = ['コ', '日', '😀', '本'];
 pub const COMBINING: [char; 3] = ['\u{0308}', '\u{0301}', '\u{20dd}'];
 pub const ZEROW: [char; 4] = ['\u{200b}', '\u{feff}', '\0', '\u{7f}'];
 pub const NARROW_NONASCII: [char; 6] = ['é', 'ж', 'Я', 'ß', '│', 'λ'];
+/// multi-character sequences whose width AS A STRING (ligatures, emoji modifiers, ZWJ and
+/// variation-selector sequences, flags) differs from the sum of the widths of their characters -
+/// the emulator works cell by cell, so anything that measures a run or a cell text as a whole
+/// goes wrong exactly here
+pub const SEQUENCES: [&str; 12] = [
+    "\u{644}\u{627}",
+    "\u{1F44D}\u{1F3FD}",
+    "\u{1F468}\u{200D}\u{1F469}",
+    "\u{2764}\u{FE0F}",
+    "1\u{FE0F}\u{20E3}",
+    "#\u{FE0F}",
+    "\u{a9}\u{FE0F}",
+    "\u{2764}\u{FE0E}",
+    "\u{5D0}\u{200D}\u{5DC}",
+    "\u{1F1E9}\u{1F1EA}",
+    "\u{26A0}\u{FE0F}x",
+    "\u{1F600}\u{FE0E}",
+];
 
 /// a short printable text run
 pub fn text_run(rng: &mut Rng, max: usize) -> String {
@@ -85,8 +109,11 @@ pub fn text_run(rng: &mut Rng, max: usize) -> String {
             *rng.pick(&WIDE)
         } else if r < 97 {
             *rng.pick(&COMBINING)
-        } else {
+        } else if r < 98 {
             *rng.pick(&ZEROW[..2])
+        } else {
+            s.push_str(*rng.pick(&SEQUENCES[..]));
+            continue;
         };
         s.push(c);
     }
@@ -224,6 +251,16 @@ pub fn setup(rng: &mut Rng, columns: u32, lines: u32, prof: &Profile) -> Vec<Op>
     }
     if rng.below(100) < 15 {
         ops.push(Op::Api(Call::SetMode(vec![5], true)));
+        // ... and with reverse video on, blanks written with reverse explicitly off: they equal
+        // the power-on default cell but not the screen's current default cell
+        if rng.bool() {
+            let y = rng.range(1, l);
+            match rng.below(3) {
+                0 => ops.push(Op::Feed(format!("\x1b[{};1H\x1b[0;27m\x1b[2K\x1b[m", y))),
+                1 => ops.push(Op::Feed(format!("\x1b[{};1H\x1b[0;27m{}\x1b[m", y, " ".repeat(rng.range(1, c) as usize)))),
+                _ => ops.push(Op::Feed(format!("\x1b[0;27m\x1b[{};{}H\x1b[1J", y, rng.range(1, c)))),
+            }
+        }
     }
     if rng.below(100) < 12 {
         ops.push(Op::Api(Call::ResetMode(vec![25], true)));
@@ -284,8 +321,15 @@ pub fn setup(rng: &mut Rng, columns: u32, lines: u32, prof: &Profile) -> Vec<Op>
         _ => rng.range(1, l),
     };
     if pct(rng, prof.pending_wrap, 22) {
-        ops.push(Op::Api(Call::CursorPosition(Some(y), Some(c))));
-        ops.push(Op::Api(Call::Draw(marker(c - 1, y - 1, c).to_string())));
+        if c >= 2 && rng.below(4) == 0 {
+            // the pending-wrap column reached by a double-width character that ends flush with
+            // the right edge (the last cell is then a placeholder, not a glyph)
+            ops.push(Op::Api(Call::CursorPosition(Some(y), Some(c - 1))));
+            ops.push(Op::Api(Call::Draw(rng.pick(&WIDE).to_string())));
+        } else {
+            ops.push(Op::Api(Call::CursorPosition(Some(y), Some(c))));
+            ops.push(Op::Api(Call::Draw(marker(c - 1, y - 1, c).to_string())));
+        }
     } else {
         let x = match rng.below(5) {
             0 => 1,
